@@ -213,4 +213,72 @@ theorem c01_onColumn_scan (cbs : List Callback) (buf : Bytes) (hc : cbs ≠ []) 
   have : cbs.isEmpty = false := by cases cbs <;> simp_all
   rw [if_neg (by simp [this]; omega)]
 
+/-! ### positions that start with `%` but are not containers -/
+
+theorem c01_goSlice_ok_of_le (b : Bytes) (lo hi : Nat) (h : lo ≤ hi ∧ hi ≤ b.length) :
+    goSlice b lo hi = .ok ((b.take hi).drop lo) := by
+  unfold goSlice; rw [if_pos h]
+
+theorem c01_goIndex_ok_of_lt (b : Bytes) (i : Nat) (h : i < b.length) : goIndex b i = .ok b[i] := by
+  unfold goIndex; rw [List.getElem?_eq_getElem h]
+
+/-- a buffer that starts with `%` is not an AcraStruct -/
+theorem c01_validateStruct_pct (r : Bytes) : validateStruct (37 :: r) = .err := by
+  unfold validateStruct
+  by_cases hl : (37 :: r).length < structMin
+  · rw [if_pos hl]
+  · rw [if_neg hl, c01_goSlice_ok_of_le _ 0 structTagLen ⟨Nat.zero_le _, by rw [c01_structMin] at hl; rw [c01_structTagLen]; omega⟩]
+    rw [Out.bind_ok, c01_structTagLen]
+    have : ((37 :: r).take 8).drop 0 ≠ structTag := by
+      have ht : structTag = [34,34,34,34,34,34,34,34] := by decide
+      rw [ht]; simp
+    rw [if_pos this]
+
+/-- … and does not start with an AcraBlock -/
+theorem c01_extractBlock_pct (r : Bytes) : extractBlock (37 :: r) = .err := by
+  unfold extractBlock
+  by_cases hl : (37 :: r).length < blockMin
+  · rw [if_pos hl]
+  · have hmin : blockMin = 18 := rfl
+    rw [hmin] at hl
+    rw [if_neg (by rw [hmin]; exact hl)]
+    simp only [Layout.blockTagBeginSize, Layout.blockRestAcraBlockLengthPosition, Layout.blockRestAcraBlockLengthSize,
+      Layout.blockKeyEncryptionKeyTypePosition, Layout.blockDataEncryptionTypePosition]
+    rw [c01_goSlice_ok_of_le _ 0 4 (by omega), c01_goSlice_ok_of_le _ 4 (4+8) (by omega),
+      c01_goIndex_ok_of_lt _ 12 (by omega), c01_goIndex_ok_of_lt _ 15 (by omega)]
+    simp only [Out.bind_ok]
+    have : (((37 :: r).take 4).drop 0 == blockTag) = false := by
+      have ht : blockTag = [34,34,34,34] := by decide
+      rw [ht]; simp
+    rw [this]
+    simp
+
+theorem c01_matchOld_pct (r : Bytes) : matchOld (37 :: r) = .err := by
+  unfold matchOld
+  rw [c01_validateStruct_pct, c01_extractBlock_pct]
+
+/-- a position that starts with `%` but whose would-be envelope id (byte 11) is not a registered id is
+skipped: neither a serialized container nor a bare envelope is recognised there -/
+theorem c01_headStep_pct_bad_id (cbs : List Callback) (r : Bytes)
+    (hid : ∀ x, (37 :: r)[11]? = some x → kindOfId x = none) : headStep cbs (37 :: r) = .skip false := by
+  have hv : validateContainer (37 :: r) = .err := by
+    unfold validateContainer
+    by_cases hl : (37 :: r).length ≤ containerMin
+    · rw [if_pos hl]
+    · have hc : containerMin = 12 := rfl
+      rw [hc] at hl
+      rw [if_neg (by rw [hc]; exact hl), c01_containerTag_length, c01_goSlice_ok_of_le _ 0 3 (by omega), Out.bind_ok]
+      by_cases ht : ((37 :: r).take 3).drop 0 ≠ containerTag
+      · rw [if_pos ht]
+      · rw [if_neg ht]
+        simp only [Layout.containerTagBeginSize, Layout.containerLengthSize]
+        rw [c01_goIndex_ok_of_lt _ 11 (by omega), Out.bind_ok]
+        rw [hid _ (List.getElem?_eq_getElem (by omega))]
+  have hx : extractContainer (37 :: r) = .err := by
+    unfold extractContainer
+    rw [hv, c01_matchOld_pct]
+  unfold headStep
+  rw [hx]
+  simp
+
 end AcraModel.Envelope
